@@ -49,7 +49,7 @@ REACH = {
         "numbering_checked_after_reset", "numbering_checked_after_startup", "second_request_judged",
         "request_after_a_timed_out_request_completed", "ncp_frame_between_rst_and_rstack", "rst_write_failed",
         "host_frame_pending_at_reset", "queued_frame_numbered_from_zero", "old_frame_retransmitted_between_rst_and_rstack",
-        "threaded_waiter_released_with_connection_error"]
+        "threaded_waiter_released_with_connection_error", "host_closes_the_port_while_waiting"]
     for t in ("quick", "thorough")
 }
 SOFTWARE = 0x0B
@@ -153,13 +153,20 @@ def run_case(case):
             # as real transports do: the loss is noticed in an I/O callback, connection_lost is
             # then delivered through call_soon
             def _cl():
-                tr.append(("lost", clock(), kind))
+                tr.append(("lost", clock(), "close" if kind == "hostclose" else kind))
+                if kind == "hostclose":
+                    # the host itself closes the port (as EZSP.close() / enter_failed_state() do) with a waiter still
+                    # pending; the transport then reports connection_lost(None), as transports do after close()
+                    try:
+                        gw.close()
+                    except BaseException as e:  # noqa: BLE001
+                        tr.append(("close_raised", clock(), repr(e)))
                 wire.closing = True
                 try:
                     if kind == "eof":
                         proto.eof_received()
                     else:
-                        proto.connection_lost(OSError("serial gone") if kind == "error" else None)
+                        proto.connection_lost(OSError("serial gone") if kind == "error" else None)  # "close" / "hostclose": None
                 except BaseException as e:  # noqa: BLE001
                     info["cl_raised"] = repr(e)
                     tr.append(("lost_raised", clock(), repr(e)))
@@ -524,7 +531,7 @@ def gen_cases(tier, seed):
     # C. connection loss / EOF / clean close at each step
     for (i, j) in ntx:
         for lw in ["pre", "in", "T-", "T+", "late", "after"]:
-            for kind in ["error", "eof", "close"]:
+            for kind in ["error", "eof", "close", "hostclose"]:
                 for script in ([], [("in2", "rstack", SOFTWARE)], [("in", "rstack", 0x02)]):
                     if lw in ("pre",) and script:
                         continue
@@ -543,7 +550,7 @@ def gen_cases(tier, seed):
                 cases.append({"waiter": "startup", "tx": i, "rx": j, "script": [(w, "rstack", c)]})
         cases.append({"waiter": "startup", "tx": i, "rx": j, "script": []})
         for lw in ["in", "T-", "T+", "late"]:
-            for kind in ["error", "eof", "close"]:
+            for kind in ["error", "eof", "close", "hostclose"]:
                 cases.append({"waiter": "startup", "tx": i, "rx": j, "script": [], "loss": (lw, kind)})
     # E. several reset requests on one gateway: every one of them must write its own RST and end
     #    by RSTACK(0x0B) or by the reset timeout, whatever happened to the previous one
@@ -735,6 +742,8 @@ def run_one(acc: Acc, case):
                 acc.hit("eof_while_waiting")
             if loss[1] == "close" and loss[0] == "in":
                 acc.hit("clean_close_while_waiting")
+            if loss[1] == "hostclose" and loss[0] == "in":
+                acc.hit("host_closes_the_port_while_waiting")
     else:
         if loss:
             acc.hit("startup_loss")
